@@ -685,6 +685,7 @@ class History:
     def __init__(self, hid, decl):
         self.hid, self.decl = hid, decl
         self.lines = ["H %d" % hid] + decl.lines(False) + decl.lines(True)
+        self.ndecl = len(self.lines) - 1
         self.checks = []       # (line index, kind, data) evaluated by the oracle
         self.tags = set()
 
@@ -699,6 +700,51 @@ class History:
     def end(self):
         self.lines.append("E")
         return self
+
+
+def _enc(x):
+    if isinstance(x, (bytes, bytearray)):
+        return {"b": bytes(x).hex()}
+    if isinstance(x, (list, tuple)):
+        return {"l": [_enc(y) for y in x]}
+    if isinstance(x, dict):
+        return {"d": [[_enc(k), _enc(v)] for k, v in x.items()]}
+    return x
+
+
+def _dec(x):
+    if isinstance(x, dict):
+        if "b" in x:
+            return bytes.fromhex(x["b"])
+        if "l" in x:
+            return tuple(_dec(y) for y in x["l"])
+        if "d" in x:
+            return {(_dec(k)): _dec(v) for k, v in x["d"]}
+    return x
+
+
+def hist_to_json(h):
+    d = h.decl
+    return dict(history=h.lines, tags=sorted(h.tags), shape=d.shape, ndecl=getattr(h, "ndecl", 0),
+                objs={str(o): [[it.ty, it.ch, hx(it.name), it.var, it.hasarg, it.kv, it.init] for it in its] for o, its in d.objs.items()},
+                checks=[_enc(list(c)) for c in h.checks])
+
+
+def hist_from_json(r):
+    d = Decl.__new__(Decl)
+    d.kvs, d.shape, d.ops, d.inits, d.kinds = KV_TABLES, r.get("shape", "flat"), [], {}, {}
+    d.objs = {}
+    for o, its in r.get("objs", {}).items():
+        d.objs[int(o)] = []
+        for (ty, ch, name, var, hasarg, kv, init) in its:
+            it = Item(ty, ch, unhx(name), var, hasarg, kv, init)
+            it.hasarg = hasarg
+            d.objs[int(o)].append(it)
+    h = History.__new__(History)
+    h.hid, h.decl, h.lines, h.tags = 0, d, ["H 0"] + list(r["history"][1:]), set(r.get("tags", []))
+    h.checks = [tuple(_dec(c)) for c in r.get("checks", [])]
+    h.ndecl = r.get("ndecl", 0)
+    return h
 
 
 def roundtrip(h, rng, fname):
@@ -1064,7 +1110,7 @@ def oracle(ctx, h, impl):
     decl = h.decl
 
     def viol(key, text, extra=None):
-        ctx.violation(key, "history %d: %s" % (h.hid, text), dict(history=h.lines, tags=sorted(h.tags), detail=extra))
+        ctx.violation(key, "history %d: %s" % (h.hid, text), dict(hist_to_json(h), detail=extra))
 
     if res and res[-1].startswith("E ") and "mem=ok" not in res[-1]:
         viol("memory-unbalanced", "sc_memory_status is not balanced at the end of the history")
@@ -1207,10 +1253,8 @@ def run(ctx):
     if ctx.replay:
         rp = json.load(open(ctx.replay)).get("replay", {})
         if "history" in rp:
-            h = History(0, Decl(rng, rich=False))
-            h.lines = ["H 0"] + rp["history"][1:]
-            h.tags = set(rp.get("tags", []))
-            ctx.log("replaying recorded history (%d lines); oracle checks are those of the model comparison" % len(h.lines))
+            h = hist_from_json(rp)
+            ctx.log("replaying the recorded history first (%d lines, %d oracle checks)" % (len(h.lines), len(h.checks)))
             hs.append(h)
     aimed = aimed_histories(rng, 1)
     hs += aimed
@@ -1238,7 +1282,7 @@ def run(ctx):
             if content and re.search(rb"(?mi)^\s*\[\s*arguments:count\s*\]\s*$", content[-1]) and "null pointer" in what:
                 sig = "loadargs:heading-named-arguments-count"
         ctx.violation("crash:" + sig, "history %d: the library crashed (%s) in operation `%s`" % (hid_, what, failing[:200]),
-                      dict(history=h.lines, tags=sorted(h.tags), sanitizer=what))
+                      dict(hist_to_json(h), sanitizer=what))
     # model run on the same histories (+ recorded getopt events, + libc oracle tables for doubles)
     minput = []
     for h in hs:
@@ -1303,7 +1347,7 @@ def run(ctx):
         for t in h.tags:
             dist[t] = dist.get(t, 0) + 1
         dist["shape-" + h.decl.shape] = dist.get("shape-" + h.decl.shape, 0) + 1
-        nops = len(h.lines) - 2 - len(h.decl.lines(False)) - len(h.decl.lines(True))
+        nops = len(h.lines) - 2 - h.ndecl
         ctx.count_case(tuple(h.lines[1:]), nontrivial=nops >= 1)
         judged += oracle(ctx, h, impl.get(h.hid, []))
         nguard[0] += sum(1 for g in guards.values() if g)
@@ -1317,7 +1361,7 @@ def run(ctx):
                 ctx.tie_broken("correspondence (history %d, operation `%s`)" % (h.hid, h.lines[k][:120] if k < len(h.lines) else "?"),
                                "library: %s | model: %s" % (il[k][:400] if k < len(il) else "<missing>", ml[k][:400] if k < len(ml) else "<missing>"))
                 path = os.path.join(vlib.VERIF, "evidence", "replay", "C17-disagreement-%d.json" % ndis)
-                json.dump(dict(property="C17", replay=dict(history=h.lines, tags=sorted(h.tags)), library=il[k:k + 1], model=ml[k:k + 1]), open(path, "w"), indent=1)
+                json.dump(dict(property="C17", replay=hist_to_json(h), library=il[k:k + 1], model=ml[k:k + 1]), open(path, "w"), indent=1)
     ctx.cov["disagreements_checked"] = sum(len(v_) for v_ in impl.values())
     ctx.cov["rule"] = ("histories = a declared option set (all ten option types, short/long names, flat / sub-options / nested sub-options with shared "
                        "variables, declared twice: base + fresh copy) followed by 2-9 random operations (parse of generated valid / invalid vectors, load of "
